@@ -146,53 +146,6 @@ def vp9ParseRefIndices : VP9Step := fun p rest =>
     else if p.PDiff.length ≥ 3 then (none, p)      -- errTooManyPDiff
     else vp9ParseRefIndices p r
 
-/-- the resolution loop of parseSSData: `k` = layers still to read, `i` = layers done -/
-def vp9ParseRes : Nat → Nat → VP9Step
-  | 0, _, p, rest => (some rest, p)
-  | k + 1, i, p, rest =>
-    match rest with
-    | w1 :: w2 :: h1 :: h2 :: r =>
-      vp9ParseRes k (i + 1)
-        { p with Width := p.Width.set i ((w1.toUInt16 <<< 8) ||| w2.toUInt16),
-                 Height := p.Height.set i ((h1.toUInt16 <<< 8) ||| h2.toUInt16) } r
-    | _ => (none, p)
-
-/-- the picture-group loop of parseSSData: `k` = groups still to read -/
-def vp9ParsePG : Nat → VP9Step
-  | 0, p, rest => (some rest, p)
-  | k + 1, p, rest =>
-    match rest with
-    | [] => (none, p)
-    | b :: r =>
-      let cnt := ((b >>> 2) &&& 0x3).toNat
-      let p : VP9Packet := { p with PGTID := p.PGTID ++ [b >>> 5], PGU := p.PGU ++ [b &&& 0x10 != 0] }
-      if r.length < cnt then (none, { p with PGPDiff := p.PGPDiff ++ [[]] })
-      else vp9ParsePG k { p with PGPDiff := p.PGPDiff ++ [r.take cnt] } (r.drop cnt)
-
-/-- parseSSData -/
-def vp9ParseSSData : VP9Step := fun p rest =>
-  match rest with
-  | [] => (none, p)
-  | b :: r =>
-    let p : VP9Packet := { p with NS := b >>> 5, Y := b &&& 0x10 != 0, G := b &&& 0x8 != 0, NG := 0 }
-    let n := p.NS.toNat + 1
-    let (r, p) : Option Bytes × VP9Packet :=
-      if p.Y then
-        vp9ParseRes n 0 { p with Width := List.replicate n 0, Height := List.replicate n 0 } r
-      else (some r, p)
-    match r with
-    | none => (none, p)
-    | some r =>
-      let (r, p) : Option Bytes × VP9Packet :=
-        if p.G then
-          match r with
-          | [] => (none, p)
-          | g :: r' => (some r', { p with NG := g })
-        else (some r, p)
-      match r with
-      | none => (none, p)
-      | some r => vp9ParsePG p.NG.toNat p r
-
 def VP9Step.andThen (f g : VP9Step) : VP9Step := fun p rest =>
   match f p rest with
   | (none, p') => (none, p')
@@ -201,6 +154,65 @@ def VP9Step.andThen (f g : VP9Step) : VP9Step := fun p rest =>
 /-- run the step only when the flag is set -/
 def VP9Step.when (c : VP9Packet → Bool) (f : VP9Step) : VP9Step := fun p rest =>
   if c p then f p rest else (some rest, p)
+
+/-- the step that consumes nothing -/
+def VP9Step.skip : VP9Step := fun p rest => (some rest, p)
+
+/-- one round of the resolution loop of parseSSData (`len(packet) <= pos+3` is the error):
+    WIDTH and HEIGHT of spatial layer `i` -/
+def vp9ResOne (i : Nat) : VP9Step := fun p rest =>
+  match rest with
+  | w1 :: w2 :: h1 :: h2 :: r =>
+    (some r, { p with Width := p.Width.set i ((w1.toUInt16 <<< 8) ||| w2.toUInt16),
+                      Height := p.Height.set i ((h1.toUInt16 <<< 8) ||| h2.toUInt16) })
+  | _ => (none, p)
+
+/-- the resolution loop: `k` = layers still to read, `i` = layers done -/
+def vp9ParseRes : Nat → Nat → VP9Step
+  | 0, _ => VP9Step.skip
+  | k + 1, i => (vp9ResOne i).andThen (vp9ParseRes k (i + 1))
+
+/-- one round of the picture-group loop: `T|U|R|-|-` and R reference indices -/
+def vp9PGOne : VP9Step := fun p rest =>
+  match rest with
+  | [] => (none, p)
+  | b :: r =>
+    let cnt := ((b >>> 2) &&& 0x3).toNat
+    let p : VP9Packet := { p with PGTID := p.PGTID ++ [b >>> 5], PGU := p.PGU ++ [b &&& 0x10 != 0] }
+    if r.length < cnt then (none, { p with PGPDiff := p.PGPDiff ++ [[]] })
+    else (some (r.drop cnt), { p with PGPDiff := p.PGPDiff ++ [r.take cnt] })
+
+/-- the picture-group loop: `k` = groups still to read -/
+def vp9ParsePG : Nat → VP9Step
+  | 0 => VP9Step.skip
+  | k + 1 => vp9PGOne.andThen (vp9ParsePG k)
+
+/-- parseSSData, first octet: `N_S|Y|G|-|-|-`; N_G is cleared -/
+def vp9SSHead : VP9Step := fun p rest =>
+  match rest with
+  | [] => (none, p)
+  | b :: r => (some r, { p with NS := b >>> 5, Y := b &&& 0x10 != 0, G := b &&& 0x8 != 0, NG := 0 })
+
+/-- parseSSData, resolutions: `make([]uint16, N_S+1)` twice, then the loop -/
+def vp9SSRes : VP9Step := fun p rest =>
+  if p.Y then
+    vp9ParseRes (p.NS.toNat + 1) 0
+      { p with Width := List.replicate (p.NS.toNat + 1) 0, Height := List.replicate (p.NS.toNat + 1) 0 } rest
+  else (some rest, p)
+
+/-- parseSSData, N_G -/
+def vp9SSNG : VP9Step := fun p rest =>
+  if p.G then
+    match rest with
+    | [] => (none, p)
+    | g :: r => (some r, { p with NG := g })
+  else (some rest, p)
+
+/-- parseSSData, the picture groups -/
+def vp9SSPG : VP9Step := fun p rest => vp9ParsePG p.NG.toNat p rest
+
+/-- parseSSData -/
+def vp9ParseSSData : VP9Step := vp9SSHead.andThen (vp9SSRes.andThen (vp9SSNG.andThen vp9SSPG))
 
 /-- VP9Packet.Unmarshal.  nil / empty leave the receiver untouched; otherwise the eight flags are
     taken from the first octet and (the repair) every other field is reset before parsing. -/
